@@ -20,13 +20,16 @@ structure TxSpec where
   plen : Option Nat
   deriving Repr
 
-/-- index of chromosome position `p` in the 5'→3' base list of `l` -/
+/-- index of chromosome position `p` in the 5'→3' base list of `l`
+    (an undirected location has no 5'→3' order: every question about it is refused) -/
 def posIdx (l : Loc) (p : Int) : Option Int :=
-  if p < 0 then none else (idxOf? p.toNat (bases l)).map Int.ofNat
+  if l.strand = .unstranded then none
+  else if p < 0 then none else (idxOf? p.toNat (bases l)).map Int.ofNat
 
 /-- chromosome position of the `r`-th base of `l` -/
 def posAt (l : Loc) (r : Int) : Option Int :=
-  if r < 0 then none else ((bases l)[r.toNat]?).map Int.ofNat
+  if l.strand = .unstranded then none
+  else if r < 0 then none else ((bases l)[r.toNat]?).map Int.ofNat
 
 /-! ### expected answers of the six position conversions and the amino-acid index -/
 
